@@ -421,7 +421,7 @@ func c08DestinationUses(c *Ctx) {
 			if !ok || !isParam(ia.X, args) {
 				continue
 			}
-			if k, ok := ia.Index.(*ssa.Const); ok && k.Int64() == 1 {
+			if k, ok := ia.Index.(*ssa.Const); ok && constInt64(k) == 1 {
 				return true
 			}
 		}
